@@ -24,17 +24,29 @@ pub struct Shim {
     pub tick: usize,
     pub pend_every: usize,
     pub dead: Arc<AtomicBool>,
+    pub wakers: Arc<std::sync::Mutex<Vec<std::task::Waker>>>,
+}
+/// Kill switch of a shim pair: both ends see EOF on read and errors on write; parked readers are woken.
+#[derive(Clone)]
+pub struct Kill { pub dead: Arc<AtomicBool>, pub wakers: Arc<std::sync::Mutex<Vec<std::task::Waker>>> }
+impl Kill {
+    pub fn kill(&self) {
+        self.dead.store(true, Ordering::SeqCst);
+        for w in self.wakers.lock().unwrap().drain(..) { w.wake(); }
+    }
 }
 impl Shim {
     pub fn pair(cap: usize, rq: usize, wq: usize, pend_every: usize) -> (Shim, Shim, Arc<AtomicBool>) {
         let (a, b) = tokio::io::duplex(cap);
         let dead = Arc::new(AtomicBool::new(false));
+        let wakers = Arc::new(std::sync::Mutex::new(vec![]));
         (
-            Shim { inner: a, rq, wq, tick: 0, pend_every, dead: dead.clone() },
-            Shim { inner: b, rq: wq, wq: rq, tick: 0, pend_every, dead: dead.clone() },
+            Shim { inner: a, rq, wq, tick: 0, pend_every, dead: dead.clone(), wakers: wakers.clone() },
+            Shim { inner: b, rq: wq, wq: rq, tick: 0, pend_every, dead: dead.clone(), wakers: wakers.clone() },
             dead,
         )
     }
+    pub fn kill_switch(&self) -> Kill { Kill { dead: self.dead.clone(), wakers: self.wakers.clone() } }
 }
 impl AsyncRead for Shim {
     fn poll_read(mut self: Pin<&mut Self>, cx: &mut Context<'_>, buf: &mut ReadBuf<'_>) -> Poll<std::io::Result<()>> {
@@ -44,6 +56,7 @@ impl AsyncRead for Shim {
         let n = self.rq.max(1).min(buf.remaining());
         let mut small = buf.take(n);
         let r = Pin::new(&mut self.inner).poll_read(cx, &mut small);
+        if r.is_pending() { self.wakers.lock().unwrap().push(cx.waker().clone()); }
         let filled = small.filled().len();
         if let Poll::Ready(Ok(())) = r { unsafe { buf.assume_init(filled); } buf.advance(filled); }
         r
